@@ -35,3 +35,4 @@ open SamVerif.C01
 #print axioms typePermit_finished_enum_iff
 #print axioms unboxed_over_int31_payload_counterexample
 #print axioms unboxed_over_unboxed_payload_counterexample
+#print axioms cpe_prog_mixed_sweep_preserves
